@@ -63,6 +63,12 @@ def gen_world(args, scratch):
     program = list(args.get('pre') or []) + [['gen', kw]]
     res = run_world(world_spec(args, program), scratch)
     out = slim(res, keep_choices=bool(args.get('keep_choices', True)))
+    if args.get('profile'):
+        for rk in out['ranks']:
+            prof = (rk.get('clock') or {}).get('profile')
+            if prof is not None:
+                rk['clock']['profile'] = [[b, nt, nc, hashlib.sha256(repr((site, path)).encode()).hexdigest()[:12], list(site) if site else None]
+                                          for b, nt, nc, path, site in prof]
     d = libdir(scratch, runname, compl)
     out['hashes'] = file_hashes(d)
     if res['violation'] is None and res['diverged'] is None:
